@@ -16,7 +16,7 @@ from .recode import (
     generate_dispatch,
     rename_code,
 )
-from .typemap import MultiTypeMap
+from .typemap import MultiTypeMap, resolution_lock
 from .types import clsstring, normalize_type
 from .utils import MISSING, UsageError, keyword_decorator, subtler_type
 
@@ -109,7 +109,7 @@ class LazySignature(inspect.Signature):
 
 def bootstrap_dispatch(ov, name):
     def first_entry(*args, **kwargs):
-        ov.compile()
+        ov.ensure_compiled()
         return ov.dispatch(*args, **kwargs)
 
     dispatch = FunctionType(
@@ -485,8 +485,10 @@ class Ovld:
             self.rename(f"{fn.__module__}.{fn.__qualname__}", fn.__name__)
 
     def ensure_compiled(self):
-        if not self._compiled:
-            self.compile()
+        with resolution_lock:
+            # Another thread may have compiled it in the meantime
+            if not self._compiled:
+                self.compile()
 
     def compile(self):
         """Finalize this overload.
@@ -499,7 +501,8 @@ class Ovld:
         modification.
         """
         try:
-            self._compile()
+            with resolution_lock:
+                self._compile()
         except BaseException:
             # Do not leave a partially filled map in service: the next call
             # goes through the bootstrap entry and compiles again.
